@@ -27,7 +27,9 @@ from vlib import core
 from harness import c07gen as G
 
 PROP = "C07"
-PROOF_MODULES = ["Abverif.Proofs.C07Vectors", "Abverif.Proofs.C07"]
+PROOF_MODULES = ["Abverif.Proofs.C07Vectors", "Abverif.Proofs.Lemmas.C07Str", "Abverif.Proofs.Lemmas.C07Stage",
+                 "Abverif.Proofs.Lemmas.C07Origin", "Abverif.Proofs.Lemmas.C07Render", "Abverif.Proofs.C07",
+                 "Abverif.Proofs.C07Interop"]
 W = Path(__file__).parent / "workers"
 FWS = ("twisted", "asyncio")
 TRUSTED = [
